@@ -94,7 +94,7 @@ def fill(add):
         "DESIGN.md 4/C19", "seqx")
     add("C12", "model_checking",
         "differential lock-step exploration of the three implementations against each other (explicit-state, de-duplicated on state triples)",
-        "The tree of all programs up to the length bound (4 quick / 6 thorough; breadth-first, a state is expanded at the smallest depth it is reached at) over 36 actions (writes with options, chunked, one-shot, by address, rejected commits, empty value, late overflow, reads, streamed reads, extractions, re-link after in-place damage, removals, remove_fully, clear, listing, link_to, 7 damage steps) is executed on three caches by the sync, async-std and tokio builds; after every step the normalised replies and the decoded trees are compared. Mixed-flavour: every program up to length 3 over 12 actions x every flavour assignment on one shared cache, compared with the pure-sync run.",
+        "The tree of all programs up to the length bound (4 quick / 5 thorough; breadth-first, a state is expanded at the smallest depth it is reached at) over 36 actions (writes with options, chunked, one-shot, by address, rejected commits, empty value, late overflow, reads, streamed reads, extractions, re-link after in-place damage, removals, remove_fully, clear, listing, link_to, 7 damage steps) is executed on three caches by the sync, async-std and tokio builds; after every step the normalised replies and the decoded trees are compared. Mixed-flavour: every program up to length 3 over 12 actions x every flavour assignment on one shared cache, compared with the pure-sync run.",
         "Error messages are not compared (variant and io kind are); wall-clock and tombstone times normalised. By-address/unchecked hard links and reflink*_unchecked exist only as _sync calls.",
         "DESIGN.md 4/C12", "seqx")
     add("C20", "exploration",
